@@ -21,7 +21,7 @@ structure Reason where
 
 def kindName (f : Field) : String :=
   (match f.kind with
-   | .scalar _ => "scalar" | .fixed _ _ => "fixed" | .dyn => "dyn" | .obj _ => "obj"
+   | .scalar .char => "char" | .scalar _ => "scalar" | .fixed _ _ => "fixed" | .dyn => "dyn" | .obj _ => "obj"
    | .matchOn _ _ => "match" | .lengthOf _ _ => "length" | .checksum _ _ => "checksum")
   ++ (if f.rep then "[]" else "")
 
